@@ -622,15 +622,25 @@ def o_big_genmul(case):
     n = c.n
     want = c.mul_fast(k, c.G)
     labels = [curve_label(spec), "cfg=" + cfg, _kclass(k, n), "rel=" + case["rel"], "entropy=" + case["ent"]]
-    g = ecgen.build_generator(spec, cfg, entropy_f=ecgen.entropy_from_hex(case["entropy"]))
+    basis = None
+    if case.get("basis_mult") and spec in ("k1", "r1"):
+        # the same curve and order with a non-standard base point H = m*G (every non-zero point generates the prime-order group)
+        basis = c.mul_fast(case["basis_mult"], c.G)
+        want = c.mul_fast(k, basis)
+        labels.append("non-standard-base-point")
+    g = ecgen.build_generator(spec, cfg, entropy_f=ecgen.entropy_from_hex(case["entropy"]), basis=basis)
     b = int.from_bytes(bytes.fromhex(case["entropy"]), "big") % n
     if getattr(g, "_blinding_factor", None) != b:
         raise HarnessError("the generator built with chosen entropy does not carry the chosen blinding factor: this "
                            "sub-check would be vacuous (attribute renamed or entropy width changed?)")
     labels.append("blinding-factor-as-chosen")
-    check_genmul(c, g, "Generator/%s with blinding factor %s" % (cfg, hex(b)), c.G, k, want)
+    check_genmul(c, g, "Generator/%s with blinding factor %s%s" % (cfg, hex(b), "" if basis is None else " and base point %d*G" % case["basis_mult"]),
+                 basis or c.G, k, want)
+    if basis is not None:
+        expect(g.multiply(g, k), want, c, "genmul:multiply(<generator>,k)!=ref", "%s multiply(generator object with base point %d*G, %d)" % (
+            c.name, case["basis_mult"], k))
     s = get_gen(spec, "shipped")
-    check_genmul(c, s, "Generator/shipped", c.G, k, want)
+    check_genmul(c, s, "Generator/shipped", c.G, k, c.mul_fast(k, c.G))
     labels.append("blinding=0" if b == 0 else "blinding!=0")
     return labels
 
@@ -652,7 +662,10 @@ def s_big_genmul():
             k = 1 - b + j * n
         elif rel == "k=0":
             k = j * n
-        return {"curve": cv, "cfg": cfg, "entropy": e.to_bytes(32, "big").hex(), "ent": ent, "rel": rel, "k": k}
+        case = {"curve": cv, "cfg": cfg, "entropy": e.to_bytes(32, "big").hex(), "ent": ent, "rel": rel, "k": k}
+        if raw % 3 == 0 and cv != "bls":
+            case["basis_mult"] = [2, 7, n - 1, raw % n or 5][j % 4]
+        return case
     return st.sampled_from(["k1", "r1", "bls"]).flatmap(lambda cv: st.builds(
         mk, st.just(cv), st.sampled_from(["pure", "openssl"] if ecgen.OPENSSL_PRESENT else ["pure"]),
         st.sampled_from(["zero", "n-1", "n", "n+1", "ones", "one", "random", "random", "random"]), st.integers(0, (1 << 256) - 1),
